@@ -54,6 +54,126 @@ Proof.
   apply IH; auto. eapply Forall_lt_mono with (f := fun x => x); [|exact H3]. exact Hle.
 Qed.
 
+Lemma extend_no_dangling_pre h c ls cp f :
+  wf h -> locs_ok h ls -> snd (extend_locs h c ls cp f) <> Err EDangling.
+Proof.
+  revert h; induction ls as [|l ls IH]; intros h W H; simpl; [discriminate|].
+  inversion H; subst.
+  destruct (wf_append_loc h c l cp f W) as (W1 & Hle & _); auto.
+  destruct (append_loc h c l cp f) as [h1 [|e]] eqn:E; simpl in *.
+  - apply IH; auto. eapply Forall_lt_mono with (f := fun x => x); [|exact H3]. exact Hle.
+  - unfold append_loc in E. destruct (nth_error (ems h) c); [|inversion E; discriminate].
+    destruct (val_of_ok h l W H2) as [v Hv]. rewrite Hv in E. unfold em_add in E.
+    destruct (rejects e0 v f); [inversion E; discriminate|]. destruct cp; inversion E.
+Qed.
+
+(* ---- the constructor [construct] and the clones built from it ---- *)
+
+Lemma append_loc_tables h c l cp f :
+  let h1 := fst (append_loc h c l cp f) in
+  hnd h1 = hnd h /\ tcs h1 = tcs h /\ trs h1 = trs h /\ arrs h1 = arrs h /\ tls h1 = tls h
+  /\ tlists h1 = tlists h /\ tvars h1 = tvars h /\ length (ems h1) = length (ems h).
+Proof.
+  unfold append_loc. destruct (nth_error (ems h) c); simpl; [|repeat split; auto].
+  destruct (val_of h l); simpl; [|repeat split; auto]. unfold em_add.
+  destruct (rejects e v f); simpl; [repeat split; auto|].
+  destruct cp; simpl; rewrite length_upd; repeat split; auto.
+Qed.
+
+Lemma extend_locs_tables h c ls cp f :
+  let h1 := fst (extend_locs h c ls cp f) in
+  hnd h1 = hnd h /\ tcs h1 = tcs h /\ trs h1 = trs h /\ arrs h1 = arrs h /\ tls h1 = tls h
+  /\ tlists h1 = tlists h /\ tvars h1 = tvars h /\ length (ems h1) = length (ems h).
+Proof.
+  revert h; induction ls as [|l ls IH]; intros h; simpl; [repeat split; auto|].
+  pose proof (append_loc_tables h c l cp f) as X.
+  destruct (append_loc h c l cp f) as [h0 [|e]]; simpl in *; auto.
+  destruct (IH h0) as (I1 & I2 & I3 & I4 & I5 & I6 & I7 & I8).
+  destruct X as (X1 & X2 & X3 & X4 & X5 & X6 & X7 & X8).
+  rewrite I1, I2, I3, I4, I5, I6, I7, I8. repeat split; auto.
+Qed.
+
+Lemma extend_locs_objs h c ls cp f :
+  wf h -> locs_ok h ls -> length (objs h) <= length (objs (fst (extend_locs h c ls cp f))).
+Proof.
+  revert h; induction ls as [|l ls IH]; intros h W H; simpl; auto.
+  inversion H; subst.
+  destruct (wf_append_loc h c l cp f W) as (W1 & Hle & _); auto.
+  destruct (append_loc h c l cp f) as [h1 [|e]]; simpl in *; auto.
+  etransitivity; [exact Hle|]. apply IH; auto.
+  eapply Forall_lt_mono with (f := fun x => x); [|exact H3]. exact Hle.
+Qed.
+
+Lemma wf_push_em_empty h dt : wf h -> wf (push_em h (mkE dt [])).
+Proof. intros W. apply wf_push_em; auto. constructor. Qed.
+
+Lemma construct_ok h dt ls cp f h1 :
+  construct h dt ls cp f = (h1, Ok) ->
+  h1 = fst (extend_locs (push_em h (mkE dt [])) (length (ems h)) ls cp f).
+Proof.
+  unfold construct. destruct (extend_locs _ _ ls cp f) as [h2 [|x]]; intros E; inversion E; reflexivity.
+Qed.
+
+Lemma construct_err h dt ls cp f h1 x : construct h dt ls cp f = (h1, Err x) -> h1 = h.
+Proof.
+  unfold construct. destruct (extend_locs _ _ ls cp f) as [h2 [|y]]; intros E; inversion E; reflexivity.
+Qed.
+
+Lemma wf_construct h dt ls cp f : wf h -> locs_ok h ls -> wf (fst (construct h dt ls cp f)).
+Proof.
+  intros W H. destruct (construct h dt ls cp f) as [h1 [|x]] eqn:E; simpl.
+  - rewrite (construct_ok _ _ _ _ _ _ E). apply wf_extend_locs; [apply wf_push_em_empty; auto|exact H].
+  - rewrite (construct_err _ _ _ _ _ _ _ E). exact W.
+Qed.
+
+Lemma construct_tables h dt ls cp f h1 :
+  wf h -> locs_ok h ls -> construct h dt ls cp f = (h1, Ok) ->
+  hnd h1 = hnd h /\ tcs h1 = tcs h /\ trs h1 = trs h /\ arrs h1 = arrs h /\ tls h1 = tls h
+  /\ tlists h1 = tlists h /\ tvars h1 = tvars h /\ length (ems h1) = S (length (ems h))
+  /\ length (objs h) <= length (objs h1).
+Proof.
+  intros W H E. rewrite (construct_ok _ _ _ _ _ _ E).
+  destruct (extend_locs_tables (push_em h (mkE dt [])) (length (ems h)) ls cp f)
+    as (X1 & X2 & X3 & X4 & X5 & X6 & X7 & X8).
+  pose proof (extend_locs_objs (push_em h (mkE dt [])) (length (ems h)) ls cp f (wf_push_em_empty h dt W) H) as X9.
+  simpl in *. rewrite app_length in X8. simpl in X8. repeat split; auto. lia.
+Qed.
+
+Lemma construct_no_dangling h dt ls cp f :
+  wf h -> locs_ok h ls -> snd (construct h dt ls cp f) <> Err EDangling.
+Proof.
+  intros W H. pose proof (extend_no_dangling_pre (push_em h (mkE dt [])) (length (ems h)) ls cp f
+                            (wf_push_em_empty h dt W) H) as X.
+  unfold construct. destruct (extend_locs _ _ ls cp f) as [h2 [|y]]; simpl in *; [discriminate|exact X].
+Qed.
+
+Lemma clone_ems_inv h es :
+  wf h -> Forall (fun e => locs_ok h (e_mem e)) es ->
+  let r := clone_ems h es in
+  wf (fst r) /\ snd r <> Err EDangling /\
+  hnd (fst r) = hnd h /\ tcs (fst r) = tcs h /\ trs (fst r) = trs h /\ arrs (fst r) = arrs h
+  /\ tls (fst r) = tls h /\ tlists (fst r) = tlists h /\ tvars (fst r) = tvars h
+  /\ length (ems h) <= length (ems (fst r))
+  /\ (snd r = Ok -> length (ems (fst r)) = length (ems h) + length es).
+Proof.
+  revert h; induction es as [|e es IH]; intros h W H; simpl.
+  - split; [exact W|]. repeat split; auto; try discriminate; intros; lia.
+  - inversion H as [|? ? He Hes]; subst.
+    pose proof (wf_construct h (e_dtype e) (e_mem e) true false W He) as W1.
+    pose proof (construct_no_dangling h (e_dtype e) (e_mem e) true false W He) as N1.
+    destruct (construct h (e_dtype e) (e_mem e) true false) as [h1 [|x]] eqn:E; simpl in *.
+    + destruct (construct_tables _ _ _ _ _ _ W He E) as (T1 & T2 & T3 & T4 & T5 & T6 & T7 & T8 & T9).
+      assert (Hes1 : Forall (fun e0 => locs_ok h1 (e_mem e0)) es).
+      { eapply Forall_impl; [|exact Hes]. intros a Ha.
+        eapply Forall_lt_mono with (f := fun x => x); [|exact Ha]. exact T9. }
+      destruct (IH h1 W1 Hes1) as (I0 & I00 & I1 & I2 & I3 & I4 & I5 & I6 & I7 & I8 & I9).
+      rewrite I1, I2, I3, I4, I5, I6, I7. split; [exact I0|]. split; [exact I00|].
+      repeat split; auto; try lia.
+      intros Hok. rewrite (I9 Hok). lia.
+    + rewrite (construct_err _ _ _ _ _ _ _ E) in *. split; [exact W|]. split; [exact N1|].
+      repeat split; auto. intros X; discriminate.
+Qed.
+
 Lemma wf_copy_ems h es h1 :
   wf h -> Forall (fun e => locs_ok h (e_mem e)) es -> copy_ems h es = Some h1 ->
   wf h1 /\ length (ems h1) = length (ems h) + length es.
@@ -290,6 +410,31 @@ Proof.
   - (* tlistset *) unfold exec_tlistset. destruct (nth_error (tvars h) j) as [tl|]; simpl; auto.
     destruct (times_of h tl); simpl; auto.
     match goal with |- context [if ?b then _ else _] => destruct b end; simpl; auto. apply wf_set_tl; auto.
+  - (* emctor *) unfold exec_emctor. destruct (mapM (nth_error (hnd h)) is) as [ls|] eqn:E; simpl; auto.
+    pose proof (locs_ok_mapM_hnd _ _ _ W E) as Hls.
+    destruct dt as [i|]; [|apply wf_construct; auto].
+    destruct (nth_error (hnd h) i) as [l|]; simpl; auto.
+    destruct (val_of h l) as [v|]; simpl; auto. apply wf_construct; auto.
+  - (* emclone *) unfold exec_emclone. destruct (nth_error (ems h) c) as [e|] eqn:Ee; simpl; auto.
+    apply wf_construct; auto. eapply wf_em; eauto.
+  - (* sel *) unfold exec_sel. destruct (nth_error (ems h) c) as [e|]; simpl; auto.
+    apply wf_new_em_from; auto.
+  - (* tcsel *) unfold exec_tcsel. destruct (nth_error (tcs h) t) as [tc|]; simpl; auto.
+    destruct (times_of h (tc_tl tc)); simpl; auto.
+    destruct (mapM (nth_error (ems h)) (sel idxs (tc_ems tc))) as [es|] eqn:E; simpl; auto.
+    apply wf_build_tc; auto. eapply wf_mapM_ems; eauto.
+  - (* trsel *) unfold exec_trsel. destruct (nth_error (trs h) k) as [tr|]; simpl; auto.
+    destruct (vals_of h (sel idxs (tr_drops tr))) as [vs|]; simpl; auto.
+    destruct (times_of h (tr_tl tr)); simpl; auto. apply wf_build_tr; auto.
+  - (* tcclone *) unfold exec_tcclone. destruct (nth_error (tcs h) t) as [tc|]; simpl; auto.
+    destruct (times_of h (tc_tl tc)) as [ts|]; simpl; auto.
+    destruct (mapM (nth_error (ems h)) (tc_ems tc)) as [es|] eqn:E; simpl; auto.
+    destruct (clone_ems_inv h es W (wf_mapM_ems _ _ _ W E)) as (W1 & _ & _ & _ & _ & _ & _ & T6 & _ & _ & L).
+    destruct (clone_ems h es) as [h1 [|x]]; simpl in *; auto.
+    apply wf_push_tc; [apply wf_alloc_tl; auto| |].
+    + cbn [tc_ems alloc_tl ems with_tlists]. unfold new_cids. apply Forall_forall. intros y Hy.
+      apply in_seq in Hy. rewrite (L eq_refl). lia.
+    + cbn [tc_tl]. rewrite <- T6. apply tlists_alloc_tl.
 Qed.
 
 Theorem wf_run os : forall h, wf h -> wf (run h os).
@@ -471,4 +616,33 @@ Proof.
   - unfold exec_tlistset. destruct (nth_error (tvars h) j) as [tl|] eqn:Ej; [|discriminate].
     destruct (times_of_ok h tl (wf_tvar_lt _ _ _ W Ej)) as [ts Hts]. rewrite Hts.
     match goal with |- context [if ?b then _ else _] => destruct b end; discriminate.
+  - unfold exec_emctor. destruct (mapM (nth_error (hnd h)) is) as [ls|] eqn:E; simpl; [|discriminate].
+    pose proof (locs_ok_mapM_hnd _ _ _ W E) as Hls.
+    destruct dt as [i|]; [|apply construct_no_dangling; auto].
+    destruct (nth_error (hnd h) i) as [l|] eqn:Ei; [|discriminate].
+    destruct (val_of_ok h l W (wf_hnd_lt _ _ _ W Ei)) as [v Hv]. rewrite Hv.
+    apply construct_no_dangling; auto.
+  - unfold exec_emclone. destruct (nth_error (ems h) c) as [e|] eqn:Ee; [|discriminate].
+    apply construct_no_dangling; auto. eapply wf_em; eauto.
+  - unfold exec_sel. destruct (nth_error (ems h) c) as [e|] eqn:Ee; [|discriminate].
+    unfold new_em_from.
+    destruct (vals_of_ok h (sel idxs (e_mem e)) W) as [vs Hv];
+      [apply Forall_sel; eapply wf_em; eauto|]. rewrite Hv. discriminate.
+  - unfold exec_tcsel. destruct (nth_error (tcs h) t) as [tc|] eqn:Et; [|discriminate].
+    destruct (times_of_ok h (tc_tl tc) (wf_tc_tl_lt _ _ _ W Et)) as [ts Hts]. rewrite Hts.
+    destruct (mapM_ems_total h (sel idxs (tc_ems tc)) W) as [es E].
+    { apply Forall_sel. pose proof (Forall_nth_error _ _ _ _ (wf_tcs _ W) Et) as X. exact X. }
+    rewrite E. apply build_tc_no_dangling; auto. eapply wf_mapM_ems; eauto.
+  - unfold exec_trsel. destruct (nth_error (trs h) k) as [tr|] eqn:Et; [|discriminate].
+    destruct (vals_of_ok h (sel idxs (tr_drops tr)) W) as [vs Hv];
+      [apply Forall_sel; eapply wf_tr; eauto|]. rewrite Hv.
+    destruct (times_of_ok h (tr_tl tr) (wf_tr_tl_lt _ _ _ W Et)) as [ts Hts]. rewrite Hts.
+    apply build_tr_no_dangling.
+  - unfold exec_tcclone. destruct (nth_error (tcs h) t) as [tc|] eqn:Et; [|discriminate].
+    destruct (times_of_ok h (tc_tl tc) (wf_tc_tl_lt _ _ _ W Et)) as [ts Hts]. rewrite Hts.
+    destruct (mapM_ems_total h (tc_ems tc) W) as [es E].
+    { pose proof (Forall_nth_error _ _ _ _ (wf_tcs _ W) Et) as X. exact X. }
+    rewrite E.
+    destruct (clone_ems_inv h es W (wf_mapM_ems _ _ _ W E)) as (_ & N & _).
+    destruct (clone_ems h es) as [h1 [|x]]; simpl in *; [discriminate|exact N].
 Qed.
